@@ -6,13 +6,14 @@
 // values, and the real `Params` it returns go through the real `PathParams::extract`.
 // Script (JSON, path in $VERIF_C15X_SCRIPT): {"target": "two"|"three", "params": [[key index, table index], ..]}
 // ------------------------------------------------------------------------------------------------
-#[cfg(test)]
+// (gated on a cfg of its own: the same scratch file is also path-included by the Kani encoding)
+#[cfg(all(test, verif_replay))]
 mod verif_replay_c15x {
     use super::PathParams;
     use crate::request::path::RawPathParams;
     use crate::request::path::errors::ExtractPathParamsError;
 
-    const TABLE: [(&str, Option<&str>); 8] = [
+    const TABLE: [(&str, Option<&str>); 9] = [
         ("a", Some("a")),
         ("%62", Some("b")),
         ("c%2Fd", Some("c/d")),
@@ -21,6 +22,7 @@ mod verif_replay_c15x {
         ("", Some("")),
         ("x%41y", Some("xAy")),
         ("%E2%82%AC", Some("\u{20AC}")),
+        ("a%20+b", Some("a +b")),
     ];
     const KEYS: [&str; 3] = ["k0", "k1", "k2"];
 
